@@ -331,6 +331,36 @@ pub fn check_valid_market(ctx: &mut Ctx, m: &Market, shape: &str) -> Option<FXRa
             }
         }
         let _ = rateslib::verif::fx_take_trace();
+        // the tables Python reads (fx_array, fx_vector) agree with rate() at the order the object is now in, and
+        // did so at order two
+        for (label, obj) in [("lowered", fx3.clone()), ("order-two", {
+            let mut t = fx.clone();
+            let _ = t.set_ad_order(rateslib::dual::ADOrder::Two);
+            let _ = rateslib::verif::fx_take_trace();
+            t
+        })] {
+            ctx.asserted((n * n) as u64);
+            ctx.class(&format!("python-layer:accessors:{}", label));
+            let tables = guarded(|| (obj.verif_py_fx_array(), obj.verif_py_fx_vector()));
+            let ok = match &tables {
+                Caught::Ok((arr, vecr)) => {
+                    arr.len() == n
+                        && vecr.len() == n
+                        && (0..n).all(|a| {
+                            (0..n).all(|b| {
+                                let (ia, ib) = (obj.get_ccy_index(&ccys[a]).unwrap_or(usize::MAX), obj.get_ccy_index(&ccys[b]).unwrap_or(usize::MAX));
+                                ia < n && ib < n && arr[ia].len() == n && obj.rate(&ccys[a], &ccys[b]).map_or(false, |x| num_value(&x).to_bits() == num_value(&arr[ia][ib]).to_bits())
+                            })
+                        })
+                        && (0..n).all(|j| num_value(&vecr[j]).to_bits() == num_value(&arr[0][j]).to_bits())
+                }
+                _ => false,
+            };
+            if !ok {
+                ctx.violation(&format!("C09|python-layer|accessors|{}", label), json!({"market": m.describe(), "what": "fx_array / fx_vector disagree with rate() after derivative-order switches"}));
+                return None;
+            }
+        }
         for a in 0..n {
             for b in 0..n {
                 ctx.asserted(1);
@@ -500,6 +530,8 @@ impl Prop for C09 {
         v.push("after-order-switches:2-then-0".to_string());
         v.push("python-layer:accessors".to_string());
         v.push("refused-update-before-order-switches".to_string());
+        v.push("python-layer:accessors:lowered".to_string());
+        v.push("python-layer:accessors:order-two".to_string());
         v
     }
     fn min_evaluations(&self, tier: Tier) -> u64 {
